@@ -237,6 +237,52 @@ func genWrap(g *core.G) {
 		emitNew(recv, args)
 	}
 
+	// ---- Init[T, args…] as a type: initinst / initasg ----
+	emitInst := func(recv sx.Sexp, v sx.Sexp) { g.Emit("initinst " + recv.String() + " " + v.String()) }
+	instRecvs := []sx.Sexp{sx.T("init")}
+	for _, t := range []*ty{tInt, tInt05, tFlt, tNum, tBool, {tag: "arr", kids: []*ty{tAny}}, tArrInt, {tag: "bin"}, {tag: "tsp"},
+		{tag: "hash", kids: []*ty{tAny, tAny}, lo: i64(0), hi: nil}, mkStruct("a", false, tInt), {tag: "tuple", kids: []*ty{tInt, tInt}}} {
+		instRecvs = append(instRecvs, sx.T("init", t.sexp()), t.sexp())
+	}
+	for _, ir := range inits {
+		instRecvs = append(instRecvs, sx.T("init", append([]sx.Sexp{ir.t.sexp()}, ir.ia...)...))
+	}
+	for _, w := range wrappers[:8] {
+		instRecvs = append(instRecvs, sx.T("init", w), sx.T("init", w, iv(16)))
+	}
+	instVals := append(append([]sx.Sexp{}, wrapAtoms...), froms...)
+	instVals = append(instVals, av(sv("3"), iv(16)), av(sv("3"), iv(16), bv(true)), av(av(sv("3"), iv(16))), av(sv("1.5"), bv(true)), av(iv(1), iv(2), iv(3), iv(4)), av(av(iv(1)), bv(true)),
+		hmap(sv("from"), sv("3"), sv("radix"), iv(16)), hmap(sv("value"), sv("YWJj"), sv("format"), sv("%B")), hmap(sv("days"), iv(1)), av(av(sv("a"), iv(1))), av(av(av(sv("a")), iv(1))),
+		av(av(av(sv("a")), iv(1)), sv("tree")), tsv(5), binv([]byte{1}), av(sv("YWJj"), sv("%b")), av(sv("4"), sv("%S")))
+	for _, rc := range instRecvs {
+		for _, v := range instVals {
+			emitInst(rc, v)
+		}
+	}
+	asgTypes := []sx.Sexp{tInt.sexp(), tStr.sexp(), tFlt.sexp(), tAny.sexp(), tArrInt.sexp(), (&ty{tag: "tuple", kids: []*ty{tStr}}).sexp(), tOpt(tInt).sexp(), tBool.sexp(), tUndef.sexp(), tEnum.sexp()}
+	for _, rc := range instRecvs {
+		if rc.Tag() == "init" && len(rc.Args()) > 0 {
+			for _, o := range asgTypes {
+				g.Emit("initasg " + rc.String() + " " + o.String())
+			}
+		}
+	}
+	for i := 0; i < 1500*g.Scale; i++ {
+		rc := instRecvs[r.Intn(len(instRecvs))]
+		var v sx.Sexp
+		switch r.Intn(3) {
+		case 0:
+			v = instVals[r.Intn(len(instVals))]
+		case 1:
+			// an argument list of the constructor, as one array
+			a, _ := newmWitness(r)
+			v = av(a...)
+		default:
+			v = wrapValue(r, 2)
+		}
+		emitInst(rc, v)
+	}
+
 	// ---- coerce ----
 	sA := mkStruct("a", false, tInt)
 	sAB := mkStruct("a", false, tInt, "b", true, tFlt)
